@@ -20,6 +20,13 @@ B="$VERIF/.build/$H"
 exec 9>"$VERIF/.build/lock"
 flock 9
 
+# a repository other than /repo (scratch copy for mutation runs): alternative go.mod with the replace pointing there
+MODFLAG=""
+if [ "$REPO" != "/repo" ]; then
+  sed "s#=> /repo#=> $REPO#" go.mod > ".build/alt-$H.mod"; cp go.sum ".build/alt-$H.sum"
+  MODFLAG="-modfile=$VERIF/.build/alt-$H.mod"
+fi
+
 if [ ! -x bin/instr ] || [ -n "$(find cmd/instr -newer bin/instr -name '*.go' 2>/dev/null)" ]; then
   go build -o bin/instr ./cmd/instr >&2
 fi
@@ -29,20 +36,20 @@ if [ ! -x "$B/worker" ] || [ ! -x "$B/worker-plain" ]; then
   if ! ./bin/instr -repo "$REPO" -out "$B" >"$B/instr.log" 2>&1; then
     echo "ENGINE-ERROR instrumentation failed (does /repo compile?):" >&2; cat "$B/instr.log" >&2; rm -rf "$B"; exit 2
   fi
-  if ! go build -tags verif -overlay "$B/overlay.json" -ldflags "-X verif/engine/core.Instrumented=1" -o "$B/worker" ./cmd/worker >"$B/build.log" 2>&1; then
+  if ! go build $MODFLAG -tags verif -overlay "$B/overlay.json" -ldflags "-X verif/engine/core.Instrumented=1" -o "$B/worker" ./cmd/worker >"$B/build.log" 2>&1; then
     echo "ENGINE-ERROR instrumented build failed:" >&2; cat "$B/build.log" >&2; rm -rf "$B"; exit 2
   fi
-  if ! go build -tags verif -o "$B/worker-plain" ./cmd/worker >"$B/build-plain.log" 2>&1; then
+  if ! go build $MODFLAG -tags verif -o "$B/worker-plain" ./cmd/worker >"$B/build-plain.log" 2>&1; then
     echo "ENGINE-ERROR plain build failed:" >&2; cat "$B/build-plain.log" >&2; rm -rf "$B"; exit 2
   fi
 fi
 if [ "${VERIF_NEED_RACE:-0}" = 1 ] && [ ! -x "$B/worker-race" ]; then
-  if ! go build -race -tags verif -overlay "$B/overlay.json" -ldflags "-X verif/engine/core.Instrumented=1" -o "$B/worker-race" ./cmd/worker >"$B/build-race.log" 2>&1; then
+  if ! go build $MODFLAG -race -tags verif -overlay "$B/overlay.json" -ldflags "-X verif/engine/core.Instrumented=1" -o "$B/worker-race" ./cmd/worker >"$B/build-race.log" 2>&1; then
     echo "ENGINE-ERROR race build failed:" >&2; cat "$B/build-race.log" >&2; exit 2
   fi
 fi
-# drop superseded builds
-for d in "$VERIF"/.build/*/; do
+# drop superseded builds (only builds of /repo itself are pruned/prune)
+[ "$REPO" = "/repo" ] && for d in "$VERIF"/.build/*/; do
   d=${d%/}
   [ "$d" = "$B" ] && continue
   rm -rf "$d"
